@@ -26,7 +26,7 @@ type InvProp struct {
 	TrustedBase []string  `json:"trusted_base"`
 	Assumptions []string  `json:"assumptions"`
 	Bounded     []BoundedCmd `json:"bounded_cmds"`
-	Scans       []string  `json:"scans"`
+	Scans       []ScanSpec `json:"scans"`
 }
 
 // BoundedCmd: a bounded (or, where the domain is finite, exhaustive) evaluation that stands behind a
@@ -218,6 +218,22 @@ func runProperty(prop string, ip *InvProp, repo, only string, cfg solveCfg) *che
 			}(vc)
 		}
 		wg.Wait()
+		if pass.Tags == "" && only == "" {
+			for _, sc := range ip.Scans {
+				f := scanFuncs[sc.Name]
+				if f == nil {
+					res.missing = append(res.missing, "scan:"+sc.Name)
+					continue
+				}
+				for _, key := range sc.Functions {
+					fn := fns[key]
+					if fn == nil {
+						continue // not in this pass's packages
+					}
+					res.vcs = append(res.vcs, f(w, fn))
+				}
+			}
+		}
 	}
 	sort.Slice(res.vcs, func(i, j int) bool { return res.vcs[i].name < res.vcs[j].name })
 	return res
